@@ -15,10 +15,36 @@ theorem conservation (c : Cfg) (hc : 0 < c.maxRows) (s : St) (hr : Reachable c s
   have h := reachable_inv_aux c hc s hr
   exact ⟨h.1, chain_nodup_aux c hc s hr⟩
 
+/-- Witness trace for the non-vacuity examples: seven accepted batches (rows, bad, force, empty); one
+    answered by the actor, the others spread over the worker, the flush channel, the parked request
+    and the ingest channel. -/
+private def nv_busy : List Ev :=
+  [.accept ⟨1, .rows 1⟩, .start, .accept ⟨2, .bad⟩, .actorRecv 1, .actorRecv 2, .accept ⟨3, .rows 1⟩, .actorRecv 3,
+   .flushTrigger, .enqueued, .workerTake, .flushBegin, .accept ⟨4, .force⟩, .actorRecv 4, .flushTrigger, .enqueued,
+   .accept ⟨5, .force⟩, .actorRecv 5, .flushTrigger, .accept ⟨6, .rows 3⟩, .accept ⟨7, .empty⟩]
+
+/-- non-vacuity: the premises of `conservation` hold for a mid-flight state (20 events, 7 batches, 6 unanswered) -/
+example : ∃ s, 0 < (⟨2, 2⟩ : Cfg).maxRows ∧ Reachable ⟨2, 2⟩ s ∧
+    s.accepted = [1, 2, 3, 4, 5, 6, 7] ∧ answeredIds s = [2] ∧ chain s = [1, 3, 4, 5, 6, 7] :=
+  ⟨_, by decide, ⟨nv_busy, rfl⟩, rfl, rfl, rfl⟩
+
+/-- non-vacuity: `conservation` applied to that state; its unanswered batches are exactly the six in the chain -/
+example : ∃ s, Reachable ⟨2, 2⟩ s ∧ unanswered s = [1, 3, 4, 5, 6, 7] ∧ (chain s = unanswered s ∧ (chain s).Nodup) :=
+  ⟨_, ⟨nv_busy, rfl⟩, by decide, conservation ⟨2, 2⟩ (by decide) _ ⟨nv_busy, rfl⟩⟩
+
 /-- No batch is answered twice, and only accepted batches are answered. -/
 theorem answered_at_most_once (c : Cfg) (hc : 0 < c.maxRows) (s : St) (hr : Reachable c s) :
     (answeredIds s).Nodup ∧ ∀ a ∈ answeredIds s, a ∈ s.accepted :=
   (reachable_inv_aux c hc s hr).2.1.2
+
+/-- non-vacuity: the premises of `answered_at_most_once` hold after a flush answered two batches and the actor a third -/
+example : ∃ s, 0 < (⟨2, 2⟩ : Cfg).maxRows ∧ Reachable ⟨2, 2⟩ s ∧
+    s.answered = [(2, false), (1, true), (3, true)] ∧ s.accepted = [1, 2, 3, 4, 5, 6, 7] :=
+  ⟨_, by decide, ⟨nv_busy ++ [.flushDone true], rfl⟩, rfl, rfl⟩
+
+/-- non-vacuity: `answered_at_most_once` applied to that state -/
+example : ∃ s, answeredIds s = [2, 1, 3] ∧ ((answeredIds s).Nodup ∧ ∀ a ∈ answeredIds s, a ∈ s.accepted) :=
+  ⟨_, rfl, answered_at_most_once ⟨2, 2⟩ (by decide) _ ⟨nv_busy ++ [.flushDone true], rfl⟩⟩
 
 /-- **Graceful stop**: if Stop returned nil, every accepted batch has been answered — including
     batches accepted before Start, racing with Stop, empty batches and rejected batches, and
@@ -26,6 +52,16 @@ theorem answered_at_most_once (c : Cfg) (hc : 0 < c.maxRows) (s : St) (hr : Reac
 theorem C05_graceful_stop (c : Cfg) (hc : 0 < c.maxRows) (s : St) (hr : Reachable c s)
     (h : s.stopReturned = some true) : ∀ a ∈ s.accepted, a ∈ answeredIds s :=
   graceful_stop_aux c hc s hr h
+
+/-- non-vacuity: the premises of `C05_graceful_stop` hold when the busy state above is drained (one flush
+    fails, one is ack-only) and Stop returns nil; every one of the seven batches has an answer -/
+example : ∃ s, 0 < (⟨2, 2⟩ : Cfg).maxRows ∧ Reachable ⟨2, 2⟩ s ∧ s.stopReturned = some true ∧
+    s.accepted = [1, 2, 3, 4, 5, 6, 7] ∧
+    s.answered = [(2, false), (1, false), (3, false), (4, true), (5, true), (7, true), (6, true)] :=
+  ⟨_, by decide,
+   ⟨nv_busy ++ [.stopBegin, .flushDone false, .workerTake, .enqueued, .stopCall, .flushBegin, .flushDone true,
+      .workerTake, .flushBegin, .flushDone true, .actorRecv 6, .flushTrigger, .enqueued, .actorRecv 7, .workerTake,
+      .flushBegin, .flushDone true, .actorExit, .workerExit, .stopRet true], rfl⟩, rfl, rfl, rfl⟩
 
 /-- Non-vacuity: accept three batches (one bad, one empty), flush, stop gracefully. -/
 example : ∃ s, run ⟨2, 2⟩ init
